@@ -27,6 +27,7 @@ RULE = ('(a) from_sparse on generated (data, column table, requested channels) t
 RULE += " Added classes: -1 padded template_feature_ind / pc_feature_ind rows (padding never in the first slot, ids distinct per row); 384-channel probes with 17-40 requested channels (NumPy's sort-based isin branch); one conversion of > 50000 spikes per shard."
 RULE += ' Spike-id and channel-id arrays of every integer dtype (uint8..uint64, int32, int64), read-only arrays; the returned feature block is overwritten by the caller before the next request.'
 RULE += ' Round 5: row tables that list every spike grouped by template or a subset in arbitrary order; stored spikes whose values are all NaN; sparse templates whose column table is as wide as the feature store.'
+RULE += ' Round 6: stores of 8-12 spikes per template and 3 channels per spike for the PCA route (requests mix spikes with and without waveform); NaN / inf template features; a stored NaN comes back as NaN.'
 EXHAUSTIVE = {'quick': False, 'thorough': False}
 FLOORS = {'quick': {'evaluations': 20000, 'distinct_nontrivial': 8000,
                     'monitors': {'M2.from_sparse.checked': 12000}},
